@@ -579,6 +579,15 @@ impl<'a> Gen<'a> {
                 h,
             });
         }
+        // the order of the children carries no meaning (names are distinct): every third branch
+        // lists them in another order - a default branch in front of the default leaf, named
+        // nodes in front of both
+        if out.len() > 1 && self.rng.chance(1, 3) {
+            for i in (1..out.len()).rev() {
+                let j = self.rng.usize_below(i + 1);
+                out.swap(i, j);
+            }
+        }
         out
     }
 }
